@@ -21,6 +21,7 @@ from .resolver_map import ResolverMap
 from .scalars import SPECIFIED_SCALAR_TYPES
 from .types import (
     Directive,
+    EnumType,
     Field,
     GraphQLAbstractType,
     GraphQLType,
@@ -625,6 +626,9 @@ def _clone_type(type_: NamedType) -> NamedType:
         cloned.fields = [
             copy.copy(f) for f in type_.fields  # type: ignore
         ]
+    elif isinstance(cloned, EnumType):
+        # Visitors edit the members they are handed in place.
+        cloned._set_values([copy.copy(v) for v in type_.values])
     return cloned
 
 
